@@ -188,6 +188,18 @@ type encTagMapNamed map[encAttr]interface{}
 
 func (t encTagMapNamed) Tags() ([]encrypt.PointerTag, error) { return encTagMap(nil).Tags() }
 
+// encTagMapAny is a Taggable map with interface keys (what YAML and CBOR decoders produce): its tags
+// name string keys; keys of other types that merely print like a tagged key are different, untagged entries.
+type encTagMapAny map[interface{}]interface{}
+
+func (t encTagMapAny) Tags() ([]encrypt.PointerTag, error) {
+	return []encrypt.PointerTag{
+		{Pointer: "/1", Classification: encrypt.PublicClassification},
+		{Pointer: "/user", Classification: encrypt.SensitiveClassification},
+		{Pointer: "/true", Classification: encrypt.PublicClassification},
+	}, nil
+}
+
 var tagMapTags = map[string]string{"secret-redact": "secret,redact", "sens-encrypt": "sensitive,encrypt", "sens-default": "sensitive", "secret-hmac": "secret,hmac-sha256", "pub": "public"}
 
 // encTagStruct is a Taggable struct: its tags point into a map it holds.
@@ -417,7 +429,9 @@ func effectiveAllNone(ov map[encrypt.DataClassification]encrypt.FilterOperation)
 	eff := map[encrypt.DataClassification]encrypt.FilterOperation{
 		encrypt.PublicClassification: encrypt.NoOperation, encrypt.SensitiveClassification: encrypt.EncryptOperation, encrypt.SecretClassification: encrypt.RedactOperation}
 	for k, v := range ov {
-		eff[k] = v
+		if _, isOp := eff[k]; isOp {
+			eff[k] = v // (an entry under any other key overrides none of the filter's operations)
+		}
 	}
 	for _, v := range eff {
 		if v != encrypt.NoOperation {
@@ -1020,6 +1034,25 @@ func (g *encGen) payload(kind int, depth int) (interface{}, string) {
 		return g.recordPublic(), "*struct(record,public)"
 	case 21:
 		return g.recordProtected(), "*struct(record,protected)"
+	case 31:
+		m := encTagMapAny{}
+		if g.want() {
+			m["1"] = g.canary("any", "anymap{\"1\"}") // (the documented Taggable map is map[string]interface{}: what a tag does here is not claimed)
+		}
+		m[1] = g.canary("redact", "anymap{int 1}")
+		if g.want() {
+			m["user"] = g.canary("any", "anymap{\"user\"}")
+		}
+		if g.want() {
+			m[2] = g.canary("redact", "anymap{int 2}")
+		}
+		if g.want() {
+			m["true"] = g.canary("any", "anymap{\"true\"}")
+		}
+		if g.want() {
+			m[true] = g.canary("redact", "anymap{bool true}")
+		}
+		return m, "taggable-map(interface-keys,look-alike-keys-of-other-types)"
 	case 30:
 		return &encLogin{
 			EncCreds:   EncCreds{Token: g.canary(g.treatFor("secret", true), "*login.EncCreds.Token"), User: g.canary(g.treatFor("sensitive", true), "*login.EncCreds.User")},
@@ -1327,6 +1360,11 @@ func runEncrypt(rc *RunCtx, prop string) {
 		overrides = map[encrypt.DataClassification]encrypt.FilterOperation{encrypt.PublicClassification: "", encrypt.SensitiveClassification: "", encrypt.SecretClassification: ""}
 		allNone = true
 		allNoneNoWrapper = tp.Choose(2, "nowrapper") == 0 // a no-op filter needs no wrapper
+		if x := tp.Choose(4, "stray-override-entry"); x > 0 {
+			// an entry that overrides none of the three operations: left over from another configuration
+			overrides[[]encrypt.DataClassification{encrypt.UnknownClassification, "Secret", "pii"}[x-1]] = allOps[1+tp.Choose(3, "stray-op")]
+			simrt.Probe("encrypt.all-none-with-stray-override-entry")
+		}
 	}
 	kv := &keyVersion{n: 1, key: keyBytes(1)}
 	kv.w = newAead(kv.key, "key-1")
@@ -1503,7 +1541,7 @@ func runEncrypt(rc *RunCtx, prop string) {
 			d := &drawRec{tape: tp}
 			fill := []int{15, 40, 80}[tp.Choose(3, "fill")]
 			g := &encGen{d: d, exp: map[string]*leafExp{}, overrides: overrides, fill: fill, withIgnored: withIgnored}
-			kind := tp.Choose(31, "kind")
+			kind := tp.Choose(32, "kind")
 			depth := tp.Choose(3, "depth")
 			var payload interface{}
 			var top string
@@ -1993,6 +2031,18 @@ func runEncryptRotateConc(rc *RunCtx) {
 		return nv
 	}
 	v1 := mk()
+	if !keyOnly {
+		// the filter may start without a salt and / or info (the zero-value configuration); rotations bring them
+		switch tp.Choose(4, "initial-salt-info") {
+		case 1:
+			v1.salt = nil
+		case 2:
+			v1.info = nil
+		case 3:
+			v1.salt, v1.info = nil, nil
+			simrt.Probe("encrypt.rotation-from-no-salt-no-info")
+		}
+	}
 	f := &encrypt.Filter{Wrapper: v1.w, HmacSalt: v1.salt, HmacInfo: v1.info}
 	// a second, unrelated filter (another pipeline's, with key material of its own) works next to the first:
 	// two filters share nothing
